@@ -49,6 +49,7 @@ def case_st(draw):
         case['chunks'] = draw(st.sampled_from([1, 1, 2, 5]))
     if carrier == 'post-many':
         case['n'] = draw(st.integers(0, 18))
+        case['form'] = draw(st.sampled_from(['plain', 'plain', 'd=quote', 'd=raw-separators']))
         case['limit'] = draw(st.sampled_from([1000, 1000000]))
         case['size'] = None
     return case
@@ -139,11 +140,18 @@ def check_case(case, ctx=None):
                                 rep)
         elif carrier == 'post-many':
             n = case['n']
-            body = rm.SEP.join('4m%d' % i for i in range(n)).encode()
+            text = rm.SEP.join('4m%d' % i for i in range(n))
+            form = case.get('form', 'plain')
+            if form == 'd=quote' and n:
+                import urllib.parse
+                text = 'd=' + urllib.parse.quote(text, safe='')
+            elif form == 'd=raw-separators' and n:
+                text = 'd=' + text
+            body = text.encode()
             r = w.http('POST', 'transport=polling&EIO=4&sid=' + sid, body=body,
                        headers=[('Host', 'localhost')])
             w.settle()
-            trig = 'post-many|n=%s' % ('<=16' if n <= 16 else '>16')
+            trig = 'post-many|%s|n=%s' % (form, '<=16' if n <= 16 else '>16')
             got = msgs()
             if n <= 16:
                 if got != ['m%d' % i for i in range(n)]:
